@@ -335,20 +335,22 @@ theorem buildEnum_inv (s : State) (p : Path) (d : G.EnumDef) (r : Resolved)
         · cases h
         · rename_i range hrange
           split at h
+          · cases h
           · split at h
-            · cases h
             · split at h
+              · cases h
               · split at h
-                · cases h
                 · split at h
                   · cases h
                   · split at h
                     · cases h
-                    · rename_i al hal
-                      cases h
-                      exact ⟨_, range, rfl, hsize, hrange, hal⟩
-              · exact absurd h (C01.cast_ne_ok _ _)
-          · exact absurd h (C01.cast_ne_ok _ _)
+                    · split at h
+                      · cases h
+                      · rename_i al hal
+                        cases h
+                        exact ⟨_, range, rfl, hsize, hrange, hal⟩
+                · exact absurd h (C01.cast_ne_ok _ _)
+            · exact absurd h (C01.cast_ne_ok _ _)
       · exact absurd h (C01.cast_ne_ok _ _)
     · exact absurd h (C01.cast_ne_ok _ _)
 
